@@ -42,7 +42,7 @@ def _profiles():
 
 def plan(tier):
     main, probes = _profiles()
-    out = [{"name": "main", "examples": 5000 if tier == "quick" else 150000}]
+    out = [{"name": "main", "examples": 10000 if tier == "quick" else 150000}]
     for name in probes:
         out.append({"name": name, "examples": 320 if tier == "quick" else 3200, "shards": 4})
     return out
